@@ -894,8 +894,9 @@ def solve_all(obls, timeout_ms, ex, width):
     every obligation that was lost to a killed / dead worker (z3's sequence solver is unstable on identical input,
     most visibly when the machine is loaded: such a loss says nothing about the obligation).  A second loss stands."""
     _solve_all(obls, timeout_ms, ex, width)
-    lost = [ob for ob in obls if ob.status == "unknown" and ("hard timeout" in (ob.reason or "") or
-                                                            "process died" in (ob.reason or ""))]
+    # (an `unknown` of any kind is not a verdict: z3's sequence solver gives up -- "incomplete (theory seq)" -- or runs into
+    #  its budget on one naming of the same formula and decides another in seconds)
+    lost = [ob for ob in obls if ob.status == "unknown"]
     if lost and len(lost) <= 12:
         for ob in lost:
             ob.retry_seed = 4711
